@@ -7,6 +7,8 @@ CHECKS = {
          "Every reachable state within the depth bound is probed on the real in-memory, SQLite, SQLite-reopened and HTTP implementations: the walk from the chain base must return exactly the versions the implementation itself acknowledged, in order, and no two stored versions may share a parent. Exhaustive within the stated alphabet/depth; the right level because the property quantifies over histories, which a BFS over the real transition function enumerates.", "4.1, 5/C01"),
  "C02": ("E-SEQ", "model_checking", "explicit-state BFS; every AddVersion transition compared with the reference model (response, fresh id, stored row, untouched state on reject)",
          "Every AddVersion transition (every parent class, from every reachable state within the bound) is executed on library and HTTP entries over both backends and compared with the reference model: acceptance iff empty or parent = latest, fresh non-nil id, stored parent/payload, conflict names latest and changes nothing.", "4.1, 5/C02"),
+ "C03": ("E-SCHED", "model_checking", "stateless model checking of the real code on real threads under a controlled scheduler: DFS over schedules with iterative preemption bounding; brute-force linearizability against the reference model (responses + final state)",
+         "Every pairing of the eight request kinds (plus two-request threads; thorough: triples, SQLite lock-level scheduling points, a concurrently constructed instance) from three initial states runs on 2-3 real OS threads through the library and the actix handlers over the in-memory backend, one SQLite instance and one SQLite instance per thread. The explorer owns every switch (points before Storage::txn, every StorageTxn call, transaction drop, request start); blocking is observed through SQLite's busy handler and the in-memory mutex's try_lock, never assumed. All schedules up to the preemption bound are executed; each must be explained by some real-time-respecting sequential order of the reference model, including the final stored state, and no 5xx/Err/deadlock may appear.", "4.3, 5/C03"),
  "C04": ("E-CRASH", "fault_enumeration", "exhaustive crash-point enumeration: every state-changing VFS call of a request history is a crash point; process-crash image + power-loss images (synced content + every subset of unsynced writes) recovered by the real code",
          "The real SQLite write path runs over a shim VFS that logs every file operation; for every crash point of every history the process-crash image and all power-loss images (all subsets of unsynced writes up to the cap, deviation-bounded above it; thorough: torn sectors) are materialised and recovered by the real SqliteStorage::new, integrity-checked, read back through the protocol and compared with the reference model after the acknowledged prefix or that prefix plus the whole in-flight request; service must continue. The log replayed on the device model must reproduce the on-disk files byte for byte (conformance).", "4.4, 5/C04"),
  "C05": ("E-FAULT", "fault_enumeration", "exhaustive fault-plan enumeration at two layers: k-th Storage/StorageTxn call and k-th VFS call of a request fails (before/after effect, one-shot/sticky), single and double faults, fault-free epilogue",
@@ -21,8 +23,8 @@ CHECKS = {
          "For every multi-client history within the bound each client's projection is re-run alone on a fresh implementation and compared response by response; every request must leave other clients' stored rows untouched.", "4.1, 5/C09"),
  "C10": ("E-SEQ", "model_checking", "explicit-state BFS; every AddSnapshot transition compared with the model's acceptance rule, declined => byte-identical record, position monotone",
          "All chain lengths up to the bound, all snapshot positions and all choices of v are enumerated on both backends; replace iff the window rule, declined requests leave the record (bytes, counter, timestamp) untouched; the unspecified corner (v = non-nil chain base) accepts either outcome.", "4.1, 5/C10"),
- "C11": ("E-SEQ", "model_checking", "explicit-state BFS; GetSnapshot compared with the model's last accepted snapshot in every state and the chain walked from it",
-         "In every reachable state GetSnapshot must return id and bytes of the last accepted upload (or none), and following children from that id must reach latest without gone. The concurrent half of the property is decided by C03's scheduler runs.", "4.1, 5/C11"),
+ "C11": ("E-SEQ+E-SCHED", "model_checking", "explicit-state BFS (GetSnapshot vs the model's last accepted snapshot in every state, chain walked from it) + controlled-scheduler exploration of AddSnapshot overlapping GetSnapshot/AddVersion/AddSnapshot",
+         "In every reachable state GetSnapshot must return id and bytes of the last accepted upload (or none), and following children from that id must reach latest without gone. The concurrent half runs the snapshot pairings under the controlled scheduler (all schedules up to the preemption bound, linearizability oracle, so id and bytes always come from the same upload).", "4.1, 5/C11"),
  "C12": ("E-SWEEP+E-SEQ", "model_checking", "full product of boundary configurations x boundary measures on the real Server::add_version (both backends) + explicit-state BFS with snapshot ageing; exact-arithmetic model",
          "The urgency computation is executed for the full product of boundary target values (0, 1, odd, type extremes, thirds of the type range) and boundary measures around every threshold, on both backends, each under catch_unwind with overflow checks on, and compared with an exact-arithmetic model; monotonicity is checked over the swept grid. Histories with ageing snapshots check that the stored counter equals the number of versions accepted since the snapshot and that the reported urgency follows from the pre-request record.", "5/C12"),
  "C13": ("E-SEQ", "model_checking", "explicit-state BFS with in-memory, SQLite and SQLite-reopened-before-every-request in lock step; responses and dumps compared pairwise",
@@ -67,11 +69,12 @@ def main():
             "guard": "cargo feature `verif-hooks` of crate taskchampion-sync-server-core",
             "enable": "the harness depends on /repo/core by path with features=[\"verif-hooks\"]; cargo feature unification turns it on for /repo/sqlite and /repo/server too",
             "baseline_off_cmd": "cd /repo && cargo test --workspace --no-fail-fast --offline",
-            "source_commits": ["b92f929"],
-            "fix_commits": ["2d7c899"],
+            "source_commits": ["b92f929", "004e104"],
+            "fix_commits": ["2d7c899", "d223657"],
             "add_only": True,
         },
         "engines": [
+            {"name": "E-SCHED", "path": "harness/src/sched.rs + harness/src/esched.rs", "serves_properties": ["C03", "C11"], "kind_free_text": "own controlled scheduler over real OS threads running the real code; preemption-bounded DFS; linearizability oracle"},
             {"name": "E-CRASH", "path": "harness/src/ecrash.rs", "serves_properties": ["C04"], "kind_free_text": "VFS operation log -> exhaustive crash images -> recovery by the real code"},
             {"name": "E-FAULT", "path": "harness/src/efault.rs", "serves_properties": ["C05"], "kind_free_text": "exhaustive single/double fault plans at the storage-trait seam and at the VFS"},
             {"name": "E-HTTP", "path": "harness/src/ehttp.rs", "serves_properties": ["C15", "C16", "C20"], "kind_free_text": "exhaustive enumeration of a request grammar against the real actix app on live state"},
